@@ -1,7 +1,8 @@
 import Proofs.Tokens
+import Proofs.Pagination
 /-! C09 — page pagination: token text round-trips for every (prefix index, path); paths built from
-    L/C/R steps are injective and read back digit by digit. (The traversal theorems are in progress —
-    see DESIGN §7 C09.) -/
+    L/C/R steps are injective and read back digit by digit. The traversal is strictly ascending; resuming from any item returns exactly the later items
+    (Proofs/Pagination). The lift over whole histories (`Shape` of every reachable state) is Proofs/PageSet. -/
 namespace Traph.Props
 open Traph
 
@@ -17,6 +18,47 @@ theorem C09_path_digits (ops : List Nat) (h : ∀ d ∈ ops, d = 1 ∨ d = 2 ∨
 theorem C09_path_injective (o₁ o₂ : List Nat) (h₁ : ∀ d ∈ o₁, d = 1 ∨ d = 2 ∨ d = 3)
     (h₂ : ∀ d ∈ o₂, d = 1 ∨ d = 2 ∨ d = 3) : o₁.foldl base4Append 0 = o₂.foldl base4Append 0 → o₁ = o₂ :=
   path_injective o₁ o₂ h₁ h₂
+
+/-! #### ordered, complete, duplicate-free, resumable (for every tree satisfying the shape invariant whose
+     stems are well formed: closed by the separator, no separator inside) -/
+
+/-- ascending LRU order within a prefix: the in-order walk of a webentity is strictly ascending in the
+    byte order of the full LRUs — hence also duplicate-free -/
+theorem C09_ascending {s : State} (start : Nat) (t : T) (lo hi : Option Stem) (lru : Bytes) (path : Nat)
+    (ho : OrdT s t lo hi) (hw : AllWf s t) :
+    ((t.weInorder s start lru path).map (·.2.1)).Pairwise (fun a b => lexLt a b = true) :=
+  weInorder_sorted start t lo hi lru path ho hw
+
+/-- every item of the walk can serve as a resume point: its path number is unique in the walk and
+    `follow_path` leads back to exactly its LRU (no traversal exception for a token the index issued) -/
+theorem C09_token_denotes {s : State} {a : Nat} {l c r : T} (hr : Rep s (.node a l c r)) (lru : Bytes)
+    {b : Nat} {cur : Bytes} {p : Nat} (h : (b, cur, p) ∈ (T.node a l c r).weInorder s a lru 0) :
+    s.followPath (if p = 0 then [] else intToBase4 p) a lru = some cur := followPath_weInorder hr lru h
+
+theorem C09_paths_distinct {s : State} (start : Nat) (t : T) (lru : Bytes) (path : Nat) :
+    ((t.weInorder s start lru path).map (·.2.2)).Nodup := weInorder_paths_nodup start t lru path
+
+/-- RESUME: feeding back the token of item `(b0, cur0, p0)` yields exactly the items of the un-paginated
+    walk that sort after it — the pruning by `can_follow_path` never drops a later item, the strict
+    comparison never repeats an earlier one -/
+theorem C09_resume {s : State} {a : Nat} {l c r : T} {lo hi : Option Stem}
+    (hr : Rep s (.node a l c r)) (ho : OrdT s (.node a l c r) lo hi) (hw : AllWf s (.node a l c r))
+    (hsz : (T.node a l c r).size ≤ s.trie.size) (startLru : Bytes) {b0 : Nat} {cur0 : Bytes} {p0 : Nat}
+    (hmem : (b0, cur0, p0) ∈ (T.node a l c r).weInorder s a (lruDirname startLru) 0) :
+    s.weInorder a startLru (some p0)
+      = some (((T.node a l c r).weInorder s a (lruDirname startLru) 0).filter (fun it => lexLt cur0 it.2.1)) :=
+  weInorder_resume hr ho hw hsz startLru hmem
+
+/-- nothing repeated, nothing skipped: the un-paginated walk is (items before the token's) ++ token's item
+    ++ (the resumed walk) -/
+theorem C09_no_repeat_no_skip {s : State} {a : Nat} {l c r : T} {lo hi : Option Stem}
+    (hr : Rep s (.node a l c r)) (ho : OrdT s (.node a l c r) lo hi) (hw : AllWf s (.node a l c r))
+    (lru : Bytes) {b0 : Nat} {cur0 : Bytes} {p0 : Nat}
+    (hmem : (b0, cur0, p0) ∈ (T.node a l c r).weInorder s a lru 0) (fuel : Nat) (hf : (T.node a l c r).height ≤ fuel) :
+    ∃ pre, (T.node a l c r).weInorder s a lru 0
+        = pre ++ (b0, cur0, p0) :: s.inorderGo a (some (if p0 = 0 then [] else intToBase4 p0, cur0)) fuel a lru 0 ∧
+      ∀ it ∈ pre, lexLt it.2.1 cur0 = true :=
+  resume_no_repeat_no_skip hr ho hw lru hmem fuel hf
 
 example : parseToken (buildToken 3 (([2, 1, 3] : List Nat).foldl base4Append 0)) = some (3, 39) := by decide
 
